@@ -242,7 +242,7 @@ def r4_classification(ctx):
   fl = next((v for k, v in lists.items() if 'float' in k), None)
   ql = next((v for k, v in lists.items() if 'quantized' in k), None)
   if fl is None or ql is None:
-    raise index.AnalysisError(f'{cp.fq}: float/quantized source lists not found')
+    raise index.AnalysisError(f'C15.R5: {cp.fq}: float/quantized source lists not found (construction rule; the compatibility decision is tabled by value in C15.R5 / C15.R8)')
   # (ii) classes of _check_tensor_transformation_instructions_valid
   cv = ctx.repo.func('transformation_instruction_generator:TransformationInstructionsGenerator._check_tensor_transformation_instructions_valid')
   cls2 = {}
